@@ -18,11 +18,11 @@ Theorem translate_sound :
 Proof. exact translate_sound_lemma. Qed.
 
 (* Reading a code record = interpreting every expression with ExpressionInterpreter's function
-   table, then building the statements.  Programs that do not call MOD are read soundly (MOD is
-   mapped to the floored modulo, not to Fortran's remainder: finding C01-MOD-SIGN). *)
+   table, then building the statements.  Since fix 81bb571 (MOD = Fortran remainder) no guard on
+   the intrinsics is needed: the whole reading is sound under the four block-IF guards alone. *)
 Theorem read_code_sound :
   forall (fi : finterp) (ode : id -> list (option Q) -> option Q) (p : body) (r r' : env),
-    guard_code p = true -> g_no_mod p = true -> fresh_env r p -> nm_body fi r p = Some r' ->
+    guard_code p = true -> fresh_env r p -> nm_body fi r p = Some r' ->
     forall v, exec fi ode r (read_code p) v = r' v.
 Proof. exact read_code_sound_lemma. Qed.
 
